@@ -118,6 +118,57 @@ func initModels() {
 	regA := func(name string, mods, allocs []string, fn applyFn) {
 		modelTable[name] = &model{mods: mods, allocs: allocs, apply: fn}
 	}
+	// encoding/binary fixed-width byte orders (exact)
+	for _, order := range []struct {
+		recv string
+		big  bool
+	}{{"(encoding/binary.bigEndian).", true}, {"(encoding/binary.littleEndian).", false}} {
+		order := order
+		for _, w := range []int{2, 4, 8} {
+			w := w
+			bits := fmt.Sprint(w * 8)
+			regA(order.recv+"PutUint"+bits, []string{"E|uint8|"}, nil, func(f *frame, callee *ssa.Function, args []Val, st State, reach string, site ssa.CallInstruction) (Val, State, bool) {
+				c := f.c
+				sl, v := args[1], args[2][0]
+				if site != nil {
+					f.guard(reach, ge(sl[2], num(int64(w))), "index out of range (binary.PutUint"+bits+")", site)
+				}
+				ms := memSort("Int", 2)
+				E := c.heapGet(st.heap, "E|uint8|", ms)
+				arr := c.sel(E, sl[0])
+				for i := 0; i < w; i++ {
+					shift := i
+					if order.big {
+						shift = w - 1 - i
+					}
+					b := app("mod", app("div", v, pow2(uint(8*shift)).String()), "256")
+					arr = sto(arr, add(sl[1], num(int64(i))), b)
+				}
+				st.heap = c.heapUpd(st.heap, "E|uint8|", ms, sto(E, sl[0], arr))
+				return Val{}, st, true
+			})
+			reg(order.recv+"Uint"+bits, nil, func(f *frame, callee *ssa.Function, args []Val, st State, reach string, site ssa.CallInstruction) (Val, State, bool) {
+				c := f.c
+				sl := args[1]
+				if site != nil {
+					f.guard(reach, ge(sl[2], num(int64(w))), "index out of range (binary.Uint"+bits+")", site)
+				}
+				ms := memSort("Int", 2)
+				arr := c.sel(c.heapGet(st.heap, "E|uint8|", ms), sl[0])
+				var terms []string
+				for i := 0; i < w; i++ {
+					shift := i
+					if order.big {
+						shift = w - 1 - i
+					}
+					terms = append(terms, mul(c.sel(arr, add(sl[1], num(int64(i)))), pow2(uint(8*shift)).String()))
+				}
+				r := c.bind("bin", "Int", app("+", terms...))
+				c.assume(reach, and(le("0", r), lt(r, pow2(uint(8*w)).String())))
+				return Val{r}, st, true
+			})
+		}
+	}
 	B := "(*math/big.Int)."
 	bm := []string{bigMem}
 	reg(B+"Add", bm, bigBin(func(c *Ctx, x, y string) string { return add(x, y) }, false))
